@@ -119,4 +119,6 @@ var shapes = map[string]func(call func()){
 	"closure": func(call func()) { func() { call() }() },
 	"nontest": nonTestHelper,
 	"nontest2": func(call func()) { nonTestHelper(func() { helper1(call) }) },
+	"deep40":   func(call func()) { nonTestDeep(40, call) },
+	"deep100":  func(call func()) { helper2(func() { nonTestDeep(100, call) }) },
 }
